@@ -130,6 +130,11 @@ var specs = []spec{
 	flatStepSpec,
 	invArm("gt", "models.OperatorGreaterThan"), invArm("ge", "models.OperatorGreaterOrEq"), invArm("lt", "models.OperatorLessThan"),
 	invArm("le", "models.OperatorLessOrEq"), invArm("inRange", "models.OperatorInRange"),
+	// C13: rendezvous hashing. xxhash.Sum64String stays abstract (a parameter), slices.SortFunc too; the
+	// struct ServerScore is declared inside the function body
+	{File: "cluster/hashing.go", Func: "RendezvousHash", Module: "Rendezvous", Ext: true,
+		Structs: []structSpec{{File: "cluster/hashing.go", Name: "ServerScore", InFunc: "RendezvousHash"}},
+		Prims:   []string{"sortFunc", "xxhash.Sum64String=func(s string) uint64"}},
 	// C18: a parameter struct whose Validate is integer range checks only
 	{File: "models/quantizer.go", Func: "Validate", Recv: "ProductQuantizerParameters", Module: "Validate", Ext: true,
 		Structs: []structSpec{{File: "models/quantizer.go", Name: "ProductQuantizerParameters"}}},
